@@ -240,8 +240,10 @@ func (g *Gen) applyEffects(st *State, effs []Effect) {
 }
 
 // checkModifies: at return, every heap family that changed is unchanged outside the declared frame
-func (g *Gen) checkModifies() {
-	st := g.st
+func (g *Gen) modEffectsOfContract() []Effect {
+	if g.modEffs != nil || g.con == nil {
+		return g.modEffs
+	}
 	root := func(name string) (modRoot, bool) {
 		v, ok := g.params[name]
 		if !ok {
@@ -249,54 +251,57 @@ func (g *Gen) checkModifies() {
 		}
 		return modRoot{T: v.T, V: &v}, true
 	}
-	var effs []Effect
+	effs := []Effect{}
 	for _, m := range g.con.Modifies {
 		if strings.HasPrefix(m, "global ") {
 			continue
 		}
 		effs = append(effs, g.modEffects(m, root, g.entry)...)
 	}
-	alloc0 := g.entry.alloc
+	g.modEffs = effs
+	return effs
+}
+
+// frameFormula: family fam (current version `now`) differs from its entry version only at locations the
+// contract's modifies clause allows or at objects allocated since entry. ok=false when nothing is to be shown.
+func (g *Gen) frameFormula(fam string, now Term) (Term, bool) {
+	was := g.famTerm(g.entry, fam, g.famSort[fam])
+	if now.S == was.S {
+		return Term{}, false
+	}
+	if strings.HasPrefix(fam, "G:") {
+		for _, m := range g.con.Modifies {
+			if strings.HasPrefix(m, "global ") && strings.HasPrefix(fam, "G:"+strings.TrimSpace(m[7:])) {
+				return Term{}, false
+			}
+		}
+		return eq(now, was), true
+	}
+	if !isArr(now.Sort) {
+		return Term{}, false
+	}
+	var excl []Term
+	g.n++
+	r := Term{fmt.Sprintf("r!%d", g.n), SInt}
+	for _, e := range g.modEffectsOfContract() {
+		if e.Fam == fam {
+			if e.Target == nil {
+				return Term{}, false
+			}
+			excl = append(excl, not(eq(r, *e.Target)))
+		}
+	}
+	conds := append([]Term{{app("<=", "0", r.S), SBool}, {app("<", r.S, g.entry.alloc.S), SBool}}, excl...)
+	body := implies(and(conds...), eq(sel(now, r), sel(was, r)))
+	return Term{fmt.Sprintf("(forall ((%s Int)) %s)", r.S, body.S), SBool}, true
+}
+
+func (g *Gen) checkModifies() {
+	st := g.st
 	for _, fam := range sortedKeys(st.heap) {
-		now := st.heap[fam]
-		was := g.famTerm(g.entry, fam, g.famSort[fam])
-		if now.S == was.S {
-			continue
+		if f, ok := g.frameFormula(fam, st.heap[fam]); ok {
+			g.oblige("modifies", f, "frame: "+fam+" unchanged outside modifies clause")
 		}
-		if strings.HasPrefix(fam, "G:") {
-			allowed := false
-			for _, m := range g.con.Modifies {
-				if strings.HasPrefix(m, "global ") && strings.HasPrefix(fam, "G:"+strings.TrimSpace(m[7:])) {
-					allowed = true
-				}
-			}
-			if !allowed {
-				g.oblige("modifies", eq(now, was), "global "+fam+" is not modified")
-			}
-			continue
-		}
-		if !isArr(now.Sort) {
-			continue
-		}
-		var excl []Term
-		whole := false
-		g.n++
-		r := Term{fmt.Sprintf("r!%d", g.n), SInt}
-		for _, e := range effs {
-			if e.Fam == fam {
-				if e.Target == nil {
-					whole = true
-				} else {
-					excl = append(excl, not(eq(r, *e.Target)))
-				}
-			}
-		}
-		if whole {
-			continue
-		}
-		conds := append([]Term{{app("<=", "0", r.S), SBool}, {app("<", r.S, alloc0.S), SBool}}, excl...)
-		body := implies(and(conds...), eq(sel(now, r), sel(was, r)))
-		g.oblige("modifies", Term{fmt.Sprintf("(forall ((%s Int)) %s)", r.S, body.S), SBool}, "frame: "+fam+" unchanged outside modifies clause")
 	}
 }
 
@@ -361,7 +366,9 @@ func (g *Gen) havocLoop(li *loopInfo) {
 	for _, e := range effs {
 		byFam[e.Fam] = append(byFam[e.Fam], e)
 	}
+	li.havocFams = nil
 	for _, fam := range sortedKeys(byFam) {
+		li.havocFams = append(li.havocFams, fam)
 		es := byFam[fam]
 		whole := false
 		for _, e := range es {
